@@ -92,12 +92,20 @@ LIB = {
     'numpy.linalg.inv': F(), 'numpy.linalg.solve': F(), 'numpy.linalg.eigh': F(), 'numpy.linalg.norm': F(),
     'numpy.linalg.det': F(), 'numpy.linalg.cholesky': F(), 'numpy.outer': F(maxpos=2), 'numpy.trace': F(maxpos=4),
     'numpy.where': F(), 'numpy.isnan': UF(1), 'numpy.isfinite': UF(1), 'numpy.allclose': F(), 'numpy.tile': F(),
+    'numpy.argwhere': F(), 'numpy.piecewise': F(funcargs=True), 'numpy.cumprod': F(maxpos=3), 'numpy.prod': F(maxpos=3),
+    'numpy.column_stack': F(), 'numpy.dstack': F(), 'numpy.triu': F(), 'numpy.tril': F(), 'numpy.kron': F(),
+    'numpy.isclose': F(), 'numpy.array_equal': F(), 'numpy.ndim': F(tag=None), 'numpy.shape': F(tag=None),
+    'numpy.size': F(tag=None), 'numpy.float64': F(), 'numpy.isscalar': F(tag=None), 'numpy.logical_and': UF(2),
+    'numpy.logical_or': UF(2), 'numpy.logical_not': UF(1), 'numpy.less': UF(2), 'numpy.greater': UF(2),
     'numpy.repeat': F(), 'numpy.argsort': F(), 'numpy.flatnonzero': F(), 'numpy.nonzero': F(), 'numpy.count_nonzero': F(), 'numpy.argmax': F(maxpos=2), 'numpy.argmin': F(maxpos=2),
     # --- numpy ufuncs (positional `out` after the inputs)
     'numpy.sin': UF(1), 'numpy.cos': UF(1), 'numpy.tan': UF(1), 'numpy.arcsin': UF(1), 'numpy.arccos': UF(1),
     'numpy.arctan': UF(1), 'numpy.arctan2': UF(2), 'numpy.hypot': UF(2), 'numpy.deg2rad': UF(1),
     'numpy.rad2deg': UF(1), 'numpy.sqrt': UF(1), 'numpy.square': UF(1), 'numpy.abs': UF(1), 'numpy.absolute': UF(1),
-    'numpy.sign': UF(1), 'numpy.nextafter': UF(2), 'numpy.exp': UF(1), 'numpy.log': UF(1), 'numpy.add': UF(2),
+    'numpy.sign': UF(1), 'numpy.nextafter': UF(2), 'numpy.reciprocal': UF(1), 'numpy.radians': UF(1),
+    'numpy.degrees': UF(1), 'numpy.fabs': UF(1), 'numpy.cbrt': UF(1), 'numpy.true_divide': UF(2), 'numpy.mod': UF(2),
+    'numpy.remainder': UF(2), 'numpy.fmod': UF(2), 'numpy.float_power': UF(2), 'numpy.positive': UF(1),
+    'numpy.sinh': UF(1), 'numpy.cosh': UF(1), 'numpy.tanh': UF(1), 'numpy.expm1': UF(1), 'numpy.log1p': UF(1), 'numpy.exp': UF(1), 'numpy.log': UF(1), 'numpy.add': UF(2),
     'numpy.subtract': UF(2), 'numpy.multiply': UF(2), 'numpy.divide': UF(2), 'numpy.negative': UF(1),
     'numpy.power': UF(2), 'numpy.maximum': UF(2), 'numpy.minimum': UF(2), 'numpy.floor': UF(1), 'numpy.ceil': UF(1),
     'numpy.dot': UF(2), 'numpy.matmul': UF(2), 'numpy.clip': dict(ret=(), tag='val', nin=3),
@@ -105,7 +113,7 @@ LIB = {
     'numpy.copyto': F(mut=(0,)), 'numpy.put': F(mut=(0,)), 'numpy.place': F(mut=(0,)),
     'numpy.putmask': F(mut=(0,)), 'numpy.fill_diagonal': F(mut=(0,)),
     # --- scipy
-    'scipy.linalg.cholesky': F(ow={'overwrite_a': 0}), 'scipy.linalg.cho_solve': F(ow={'overwrite_b': 1}),
+    'scipy.linalg.cho_factor': F(ow={'overwrite_a': 0}), 'scipy.linalg.cholesky': F(ow={'overwrite_a': 0}), 'scipy.linalg.cho_solve': F(ow={'overwrite_b': 1}),
     'scipy.linalg.solve_triangular': F(ow={'overwrite_b': 1}), 'scipy.linalg.expm': F(),
     'scipy.linalg.solve': F(ow={'overwrite_a': 0, 'overwrite_b': 1}), 'scipy.linalg.inv': F(ow={'overwrite_a': 0}),
     'scipy.signal.firwin': F(), 'scipy.signal.lfilter': F(),
@@ -157,7 +165,8 @@ METHODS = {
 # attributes of library objects
 ATTR_ALIAS = {'T', 'values', 'iloc', 'loc', 'at', 'iat', 'flat', 'real', 'imag', 'c', 'interpolator',
               'index', 'columns', 'base', 'x'}
-ATTR_FRESH = {'shape', 'ndim', 'size', 'dtype', 'name', 'single', '__class__', '__name__', 'empty'}
+ATTR_FRESH = {'shape', 'ndim', 'size', 'dtype', 'name', 'single', '__class__', '__name__', 'empty',
+              'start', 'stop', 'step'}
 ATTR_KEEP_TAG = {'iloc', 'loc', 'at', 'iat'}
 
 BUILTINS = {
@@ -198,12 +207,14 @@ class FuncInfo:
         self.kind = kind            # function | method | classmethod | staticmethod | property
         self.parent = parent
         a = node.args
-        if a.vararg or a.kwarg:
-            raise Unsupported(f"{fid}: *args/**kwargs in a definition")
-        self.params = [x.arg for x in a.posonlyargs + a.args + a.kwonlyargs]
         pos = a.posonlyargs + a.args
+        self.pos_params = [x.arg for x in pos]
+        self.vararg = a.vararg.arg if a.vararg else None      # *args: one position holding a tuple
+        self.kwarg = a.kwarg.arg if a.kwarg else None         # **kwargs: one position holding a dict
+        self.params = [x.arg for x in pos + a.kwonlyargs]
         defaults = [None] * (len(pos) - len(a.defaults)) + list(a.defaults) + list(a.kw_defaults)
         self.defaults = dict(zip(self.params, defaults))
+        self.params += [x for x in (self.vararg, self.kwarg) if x]
 
 
 class ClassInfo:
@@ -248,6 +259,10 @@ class ClassInfo:
 class Program:
     def __init__(self, repo):
         self.repo = repo
+        self.pending = []
+        self.argtags = {}        # (fid, param) -> set of tags of the actual arguments at pyins call sites
+        self.param_tags = {}     # inferred for private functions from the previous pass
+        self.public = set()
         self._lists = {}
         self.trees = {}
         self.imports = {}      # module -> {local name: ('lib', qual) | ('mod', m) | ('py', m, name)}
@@ -512,15 +527,38 @@ class FT:
         elif fi.kind == 'classmethod':
             self.clsname = params.pop(0)
         self.explicit = params
+        self.fnvals = {}
+        self.elemtag = {}
+        self.ret_elemtags = []
+        self.ret_tags = []
+        self.inline_stack = [fi.fid]
+        private = fi.fid not in prog.public and (fi.parent is not None or
+                                                 (fi.node.name.startswith('_') and not fi.node.name.startswith('__')))
+        self.param_vars = set()
         for p in params:
             v = self.new(p)
             self.env[p] = v
+            if private:
+                self.param_vars.add(v)
+            if p in (fi.vararg, fi.kwarg):
+                self.tags[v] = 'list'
+            elif private and prog.param_tags.get((fi.fid, p)) is not None:
+                self.tags[v] = prog.param_tags[(fi.fid, p)]
             self.f_params.append(v)
             self.f_formals += [[v], [self.new(p + "'")]]
         self.f_formals += [[self.modroot], [self.new("MODULE'")]]
         self.f_formals += [[self.groot], [self.new("GLOBAL_RNG'")]]
         self.f_exact = list(range(0, len(self.f_formals), 2))
-        self.locals = assigned_names(fi.node.body) | set(fi.params)
+        body = fi.node.body if isinstance(fi.node.body, list) else []
+        self.locals = assigned_names(body) | set(fi.params)
+        self.bind_count = {}
+        for st in body:
+            for n in ast.walk(st):
+                if isinstance(n, ast.Name) and isinstance(n.ctx, ast.Store):
+                    self.bind_count[n.id] = self.bind_count.get(n.id, 0) + 1
+                elif isinstance(n, (ast.For, ast.While)):
+                    for nm in assigned_names(n.body) | (assigned_names([n]) if isinstance(n, ast.For) else set()):
+                        self.bind_count[nm] = self.bind_count.get(nm, 0) + 1
 
     # -- helpers
     def new(self, hint):
@@ -552,6 +590,16 @@ class FT:
         self.emit('Assign', v, self.modroot)
         if self.P.const_is_list(mod, name):
             self.tags[v] = 'list'
+        val = self.P.consts[mod].get(name)
+        if isinstance(val, (ast.Dict, ast.List, ast.Tuple)):
+            elts = val.values if isinstance(val, ast.Dict) else val.elts
+            fns = []
+            for e in elts:
+                r = self.P.resolve_name(mod, e) if isinstance(e, (ast.Name, ast.Attribute)) else None
+                if r and r[0] == 'func':
+                    fns.append(('func', r[1]))
+            if fns:
+                self.fnvals[v] = fns
         return v
 
     def read_classattr(self, owner, attr):
@@ -649,6 +697,10 @@ class FT:
                 return self.read_const(r[1], r[2])
             if r[0] == 'lib' and r[1] in LIB_CONSTS:
                 return self.fresh(n, 'const')
+            if r[0] == 'func':
+                v = self.fresh(n, 'const')
+                self.fnvals[v] = [('func', r[1])]
+                return v
             self.bad(node, f"{r[0]} used as a value")
         # a local that is not bound on this path (assigned later / in another branch)
         v = self.fresh(n + '_unbound')
@@ -752,6 +804,12 @@ class FT:
     def ev_Subscript(self, node):
         v = self.ev(node.value)
         self.ev_slice(node.slice)
+        res = self.ev_Subscript2(node, v)
+        if v in self.fnvals:
+            self.fnvals[res] = list(self.fnvals[v])
+        return res
+
+    def ev_Subscript2(self, node, v):
         if self.is_listlike(node.slice) and self.tag(v) != 'list':
             return self.fresh('idx', 'val')
         if self.tag(v) == 'list':
@@ -822,8 +880,14 @@ class FT:
     def container(self, elts, hint):
         vs = [self.ev(e.value if isinstance(e, ast.Starred) else e) for e in elts]
         res = self.fresh(hint, 'list')
+        ets = {self.tag(v) for v in vs}
+        if len(ets) == 1 and None not in ets and hint == 'tuple':
+            self.elemtag[res] = next(iter(ets))          # all elements of this literal have one known kind
         for v in vs:
             self.emit('Store', res, v)
+            if v in self.fnvals:
+                self.fnvals[res] = self.fnvals.get(res, []) + [e for e in self.fnvals[v]
+                                                               if e not in self.fnvals.get(res, [])]
         return res
 
     def ev_Tuple(self, node):
@@ -840,6 +904,64 @@ class FT:
 
     def ev_Starred(self, node):
         return self.ev(node.value)
+
+    def ev_Lambda(self, node, immediate=False):
+        immediate = immediate or getattr(self, '_argdepth', 0) > 0
+        a = node.args
+        if a.vararg or a.kwarg or a.kwonlyargs:
+            self.bad(node, "lambda with *args / keyword-only parameters")
+        names = [x.arg for x in a.posonlyargs + a.args]
+        if not immediate:
+            # a closure sees later values of the enclosing variables: accept only single-assignment ones
+            for n in ast.walk(node.body):
+                if isinstance(n, ast.Name) and n.id in self.locals and n.id not in names \
+                        and self.bind_count.get(n.id, 0) > 1:
+                    self.bad(node, f"lambda stored in a variable reads `{n.id}`, which is assigned more than once")
+        saved = dict(self.env)
+        ps = []
+        defaults = [None] * (len(names) - len(a.defaults)) + list(a.defaults)
+        for nm, dflt in zip(names, defaults):
+            pv = self.new('lambda_' + nm)
+            if dflt is not None:
+                self.emit('Assign', pv, self.ev(dflt))
+            self.env[nm] = pv
+            ps.append(pv)
+        r = self.ev(node.body)
+        self.env = saved
+        v = self.fresh('lambda', 'const')
+        self.fnvals[v] = [('lambda', tuple(ps), r)]
+        return v
+
+    def invoke_fn_values(self, fns, node, args=None, kws=None, sources=None):
+        """a function value is called: by pyins code with `args`, or by a library that may pass anything
+        reachable from `sources`; returns the variable of the result"""
+        res = self.fresh('fncall')
+        for e in fns:
+            if e[0] == 'lambda':
+                _, ps, r = e
+                if args is not None:
+                    if kws or len(args) > len(ps):
+                        self.bad(node, "call of a lambda with keywords / too many arguments")
+                    for pv, av in zip(ps, args):
+                        self.emit('Assign', pv, av)
+                else:
+                    for pv in ps:
+                        for sv in sources:
+                            self.emit('Reach', pv, sv)
+                self.emit('Assign', res, r)
+            else:
+                fi = self.P.funcs.get(e[1])
+                if fi is None:
+                    self.bad(node, f"unknown function value {e[1]}")
+                if args is not None:
+                    self.emit('Assign', res, self.call_py(fi, None, args, kws or {}, node))
+                else:
+                    t = self.new('anyarg')
+                    for sv in sources:
+                        self.emit('Reach', t, sv)
+                    n_pos = len(fi.pos_params)
+                    self.emit('Assign', res, self.call_py(fi, None, [t] * n_pos, {}, node, unknown_args=True))
+        return res
 
     def comprehension(self, node, elts):
         saved = dict(self.env)
@@ -858,6 +980,14 @@ class FT:
         return res
 
     def item_of(self, it):
+        x = self.item_of2(it)
+        if it in self.elemtag and self.tag(it) == 'list':
+            self.tags[x] = self.elemtag[it]
+        if it in self.fnvals:
+            self.fnvals[x] = list(self.fnvals[it])
+        return x
+
+    def item_of2(self, it):
         x = self.fresh('item')
         if self.tag(it) == 'list':
             self.emit('Load', x, it)
@@ -886,12 +1016,16 @@ class FT:
         f = node.func
         # evaluate arguments once
         args = []
-        for a in node.args:
-            args.append(self.ev(a.value if isinstance(a, ast.Starred) else a))
-        starred = any(isinstance(a, ast.Starred) for a in node.args)
-        kws = {}
-        for k in node.keywords:
-            kws[k.arg if k.arg is not None else '**'] = (self.ev(k.value), k.value)
+        self._argdepth = getattr(self, '_argdepth', 0) + 1      # lambdas inside the arguments are used at once
+        try:
+            for a in node.args:
+                args.append(self.ev(a.value if isinstance(a, ast.Starred) else a))
+            starred = any(isinstance(a, ast.Starred) for a in node.args)
+            kws = {}
+            for k in node.keywords:
+                kws[k.arg if k.arg is not None else '**'] = (self.ev(k.value), k.value)
+        finally:
+            self._argdepth -= 1
 
         def need_plain():
             if starred or '**' in kws:
@@ -912,6 +1046,15 @@ class FT:
                 if self.tag(v) == 'callable':
                     USED.add('callable')
                     return self.fresh('interp', 'val')
+                if v in self.fnvals:
+                    need_plain()
+                    return self.invoke_fn_values(self.fnvals[v], node, args, kws)
+                if v in self.param_vars:
+                    # may become classified once the tags of the actual arguments at the call sites are known
+                    self.P.pending.append(f"{self.fi.fid} (pyins/{self.m}.py:{node.lineno}): call of parameter "
+                                          f"`{n}`, which is not known to be a classified callable object at "
+                                          f"every call site")
+                    return self.fresh('pending-call', 'val')
                 self.bad(node, "call of a local value that is not a classified callable object")
             if n in self.nested:
                 need_plain()
@@ -948,7 +1091,11 @@ class FT:
             return self.method_call(node, v, f.attr, args, kws, need_plain)
         v = self.ev(f)
         if self.tag(v) == 'callable':
+            USED.add('callable')
             return self.fresh('interp', 'val')
+        if v in self.fnvals:
+            need_plain()
+            return self.invoke_fn_values(self.fnvals[v], node, args, kws)
         self.bad(node, "call of a computed value")
 
     def call_resolved(self, r, args, kws, node, need_plain):
@@ -1015,7 +1162,7 @@ class FT:
             return self.call_py(cands[0], recv, args, kws, node)
         res = self.fresh('dispatch')
         for c in cands:
-            self.emit('Assign', res, self.call_py(c, recv, list(args), kws, node))
+            self.emit('Assign', res, self.call_py(c, recv, list(args), kws, node, single=False))
         return res
 
     def construct(self, ci, args, kws, node):
@@ -1027,9 +1174,77 @@ class FT:
             self.bad(node, "constructor arguments for a class without __init__")
         return obj
 
-    def call_py(self, fi, recv, args, kws, node, new=False):
+    # -- private helpers are translated INLINE at the call site (context sensitive, no summary): extracting
+    #    a helper function / method is then invisible to the analysis
+    MAX_INLINE_DEPTH = 8
+
+    def can_inline(self, fi, recv, new, unknown_args, single):
+        if new or unknown_args or not single or fi.fid in self.P.public:
+            return False
+        if fi.fid in self.inline_stack or len(self.inline_stack) >= self.MAX_INLINE_DEPTH:
+            return False
+        if fi.parent is not None:
+            return True                                    # nested function: a closure
+        nm = fi.node.name
+        if not nm.startswith('_') or nm.startswith('__'):
+            return False
+        if fi.cls is None:
+            return True
+        if self.fi.cls is None or fi.cls not in self.fi.cls.mro():
+            return False
+        if fi.kind in ('method', 'property'):
+            return recv is not None and recv == self.selfvar
+        return True                                        # static / class method of the own class
+
+    def inline_call(self, fi, binding, node):
+        saved = (self.fi, self.m, self.env, self.locals, self.globals, self.nested, self.bind_count,
+                 self.loops, self.ret, self.clsname, self.selfvar, self.slotroot, self.param_vars)
+        closure_env = dict(self.env) if fi.parent is not None else {}
+        res = self.new(fi.fid.split('.')[-1] + '()inl')
+        self.inline_stack.append(fi.fid)
+        try:
+            body = fi.node.body
+            if fi.cls is None and fi.parent is None:
+                self.selfvar, self.slotroot = None, {}
+            self.clsname = fi.params[0] if fi.kind == 'classmethod' else None
+            self.fi, self.m = fi, fi.module
+            self.env = closure_env
+            self.env.update(binding)
+            self.locals = assigned_names(body) | set(fi.params) | (saved[3] if fi.parent is not None else set())
+            self.globals, self.nested, self.loops = set(), dict(saved[5]) if fi.parent is not None else {}, []
+            self.bind_count = dict(saved[6]) if fi.parent is not None else {}
+            for st in body:
+                for n in ast.walk(st):
+                    if isinstance(n, ast.Name) and isinstance(n.ctx, ast.Store):
+                        self.bind_count[n.id] = self.bind_count.get(n.id, 0) + 1
+                    elif isinstance(n, (ast.For, ast.While)):
+                        for nm in assigned_names(n.body) | (assigned_names([n]) if isinstance(n, ast.For) else set()):
+                            self.bind_count[nm] = self.bind_count.get(nm, 0) + 1
+            self.param_vars = set()
+            self.ret = res
+            outer_tags, self.ret_tags = self.ret_tags, []
+            outer_et, self.ret_elemtags = self.ret_elemtags, []
+            alive = self.block(body)
+            if alive is not False:
+                self.ret_tags.append('const')              # falls off the end: returns None
+                self.ret_elemtags.append(None)
+            ts, ets = set(self.ret_tags), set(self.ret_elemtags)
+            self.ret_tags, self.ret_elemtags = outer_tags, outer_et
+            if len(ts) == 1 and None not in ts:
+                self.tags[res] = ts.pop()
+                if len(ets) == 1 and None not in ets:
+                    self.elemtag[res] = ets.pop()
+        finally:
+            self.inline_stack.pop()
+            (self.fi, self.m, self.env, self.locals, self.globals, self.nested, self.bind_count,
+             self.loops, self.ret, self.clsname, self.selfvar, self.slotroot, self.param_vars) = saved
+        return res
+
+    def call_py(self, fi, recv, args, kws, node, new=False, unknown_args=False, single=True):
         args = list(args)
-        params = list(fi.params)
+        kws = dict(kws)
+        params = [p for p in fi.params if p not in (fi.vararg, fi.kwarg)]
+        npos = len(fi.pos_params)
         full = []
         if fi.kind in ('method', 'property'):
             params.pop(0)
@@ -1038,17 +1253,40 @@ class FT:
                     self.bad(node, "unbound method call without receiver")
                 recv = args.pop(0)
             full.append(recv)
+            npos -= 1
         elif fi.kind == 'classmethod':
             params.pop(0)
-        if len(args) > len(params):
+            npos -= 1
+        extra_pos = args[npos:]
+        args = args[:npos]
+        if extra_pos and not fi.vararg:
             self.bad(node, f"too many positional arguments for {fi.fid}")
         bound = dict(zip(params, args))
+        if fi.vararg:
+            t = self.fresh('varargs', 'list')
+            for v in extra_pos:
+                self.emit('Store', t, v)
+            bound[fi.vararg] = t
+        extra_kw = {k: kws.pop(k) for k in list(kws) if k not in params}
+        if extra_kw and not fi.kwarg:
+            self.bad(node, f"keyword {sorted(extra_kw)[0]} does not match the signature of {fi.fid}")
+        if fi.kwarg:
+            t = self.fresh('kwargs', 'list')
+            for v, _ in extra_kw.values():
+                self.emit('Store', t, v)
+            bound[fi.kwarg] = t
         for k, (v, knode) in kws.items():
-            if k not in params or k in bound:
-                self.bad(node, f"keyword {k} does not match the signature of {fi.fid}")
+            if k in bound:
+                self.bad(node, f"keyword {k} given twice for {fi.fid}")
             if k == 'rng' and isinstance(knode, ast.Constant) and knode.value is None:
                 v = self.groot
             bound[k] = v
+        params = params + [x for x in (fi.vararg, fi.kwarg) if x]
+        for p in params:
+            tg = None if unknown_args or p not in bound else self.tag(bound[p])
+            if p not in bound and is_immutable_default(fi.defaults.get(p)) and p != 'rng':
+                tg = 'const'
+            self.P.argtags.setdefault((fi.fid, p), set()).add(tg)
         for i, p in enumerate(params):
             if p in bound:
                 if p == 'rng' and i < len(node.args) and isinstance(node.args[i], ast.Constant) \
@@ -1064,6 +1302,11 @@ class FT:
                 full.append(t)
             else:
                 full.append(self.fresh('default_' + p, 'const'))
+        if self.can_inline(fi, recv, new, unknown_args, single):
+            names = ([fi.params[0]] if fi.kind in ('method', 'property') else []) + params
+            return self.inline_call(fi, dict(zip(names, full)), node)
+        if fi.parent is not None:
+            self.bad(node, "nested function that cannot be translated inline (recursion / function value)")
         full += [self.modroot, self.groot]
         temps = []
         for k, a in enumerate(full):
@@ -1095,6 +1338,14 @@ class FT:
             return res
         res = self.fresh(q.split('.')[-1] or q)
         allv = list(args) + [v for v, _ in kws.values()]
+        fnargs = [v for v in allv if v in self.fnvals]
+        if fnargs:
+            # the library may call these functions with anything reachable from the other arguments
+            sources = [v for v in allv if v not in fnargs] + ([recv] if recv is not None else [])
+            for v in fnargs:
+                r = self.invoke_fn_values(self.fnvals[v], node, sources=sources)
+                self.emit('Assign', res, r)
+                self.emit('Store', res, r)
 
         def pick(i):
             if i == 'all':
@@ -1246,14 +1497,22 @@ class FT:
         fi = FuncInfo(f"{self.fi.fid}.{s.name}", self.m, s, parent=self.fi)
         for n in ast.walk(s):
             if isinstance(n, ast.Name) and isinstance(n.ctx, ast.Load) and n.id in self.locals \
-                    and n.id not in fi.params and n.id not in assigned_names(s.body):
-                self.bad(n, "nested function reads a variable of the enclosing function")
+                    and n.id not in fi.params and n.id not in assigned_names(s.body) \
+                    and self.bind_count.get(n.id, 0) > 1:
+                self.bad(n, "nested function reads a variable of the enclosing function that is assigned more than once")
         self.nested[s.name] = fi
-        self.nested_infos.append(fi)
 
     def st_Return(self, s):
         if s.value is not None:
-            self.emit('Assign', self.ret, self.ev(s.value))
+            v = self.ev(s.value)
+            self.emit('Assign', self.ret, v)
+            self.ret_tags.append(self.tag(v))
+            self.ret_elemtags.append(self.elemtag.get(v))
+            if v in self.fnvals:
+                self.fnvals[self.ret] = self.fnvals.get(self.ret, []) + list(self.fnvals[v])
+        else:
+            self.ret_tags.append('const')
+            self.ret_elemtags.append(None)
         return False
 
     def st_Assign(self, s):
@@ -1324,6 +1583,9 @@ class FT:
                 ts = {self.tag(v) for v in vs}
                 if len(ts) == 1 and None not in ts:
                     self.tags[p] = ts.pop()
+                fns = [e for v in vs for e in self.fnvals.get(v, [])]
+                if fns:
+                    self.fnvals[p] = fns
                 out[n] = p
         return out
 
@@ -1718,7 +1980,10 @@ def translate_all(repo):
     util_lists = eval_const_lists(prog, 'util')
     columns = {c for v in util_lists.values() for c in v} | {'dt'}
     slotinfo = {}
-    for rnd in range(8):
+    prog.public = set(public_fids(prog))
+    for rnd in range(10):
+        prog.argtags = {}
+        prog.pending = []
         fts = {}
         todo = list(prog.funcs.values())
         while todo:
@@ -1774,13 +2039,18 @@ def translate_all(repo):
                 new[sname]['tags'].add(ft.tag(v))
         info = {}
         for sname, d in new.items():
+            # None / numeric literals are neutral: a slot that holds only arrays / tables (or None)
             info[sname] = dict(cat=('private', 'ownref', 'param')[d['cat']],
-                               tag='val' if d['tags'] == {'val'} else None)
-        if info == slotinfo:
+                               tag='val' if d['tags'] - {'const'} == {'val'} else None)
+        ptags = {k: next(iter(v)) for k, v in prog.argtags.items() if len(v) == 1 and None not in v}
+        if info == slotinfo and ptags == prog.param_tags:
+            if prog.pending:
+                raise Unsupported('; '.join(sorted(set(prog.pending))[:5]))
             return dict(prog=prog, fts=fts, funcs=funcs, order=order, S=S, sols=sols, slotinfo=info,
                         util_lists=util_lists)
         slotinfo = info
-    raise Unsupported("slot classification did not stabilise")
+        prog.param_tags = ptags
+    raise Unsupported("slot / parameter classification did not stabilise")
 
 
 # ----------------------------------------------------------------------------------------------
@@ -2182,6 +2452,13 @@ def run_microtests():
         'numpy.linalg.norm': U1, 'numpy.linalg.det': SQ, 'numpy.linalg.cholesky': SQ, 'numpy.outer': lambda: ((d()['v'], d()['v']), {}),
         'numpy.trace': SQ, 'numpy.where': lambda: ((d()['A'] > 1, d()['A'], d()['B']), {}), 'numpy.allclose': B2,
         'numpy.tile': lambda: ((d()['v'], 2), {}), 'numpy.repeat': lambda: ((d()['v'], 2), {}), 'numpy.argsort': U1,
+        'numpy.argwhere': U1, 'numpy.cumprod': U1, 'numpy.prod': U1, 'numpy.triu': SQ, 'numpy.tril': SQ,
+        'numpy.column_stack': lambda: (([d()['v'], d()['v']],), {}), 'numpy.dstack': lambda: (([d()['A'], d()['B']],), {}),
+        'numpy.kron': lambda: ((d()['M'], d()['M']), {}), 'numpy.isclose': B2, 'numpy.array_equal': B2,
+        'numpy.ndim': U1, 'numpy.shape': U1, 'numpy.size': U1, 'numpy.float64': lambda: ((1.5,), {}),
+        'numpy.isscalar': lambda: ((1.5,), {}),
+        'numpy.piecewise': lambda: ((d()['t'], [d()['t'] < 1.5, d()['t'] >= 1.5], [0.0, lambda u: 2 * u]), {}),
+        'scipy.linalg.cho_factor': lambda: ((d()['M'],), dict(lower=True)),
         'numpy.argmax': U1, 'numpy.argmin': U1, 'numpy.flatnonzero': U1, 'numpy.nonzero': U1, 'numpy.count_nonzero': U1, 'numpy.clip': lambda: ((d()['A'], 0.6, 0.9), {}),
         'scipy.linalg.cholesky': lambda: ((d()['M'],), dict(lower=True)),
         'scipy.linalg.cho_solve': lambda: (((np.linalg.cholesky(d()['M']), True), d()['M'].copy()), {}),
